@@ -129,9 +129,29 @@ def run(ctx, config):
                     gs = [negate_truth(c, t) for c, t, _ in g.guards_at(d.bid)]
                     if any(t and eq(c, ["var", gexact, "param"]) for c, t in gs) or any(any(is_e(q, "var") and q[1] == gexact for q in walk(c)) for c, t in gs):
                         ok = True
-        r2.inst(("len", el.n), {"site": el.where(), "store": show(el.e), "clamped_by_howmuch_under_exact": ok})
+        # the clamp must be against what is still allowed: howmuch minus the running total of the lengths handed out so far
+        from ..dnsparse import linear
+        rem_ok = False
+        acc = None
+        if is_e(v, "var"):
+            # accumulator: S += v in the same loop
+            for e2, l2, op2, r2_ in g.stores():
+                if op2 == "+=" and is_e(strip(l2), "var") and eq(strip(r2_), v):
+                    acc = strip(l2)[1]
+            if acc is not None:
+                want = {key(["var", ghm, "param"]): 1, key(["var", acc, "local"]): -1}
+                for d, drhs in g.var_stores(v[1]):
+                    if g.depends_on(drhs, {ghm}) and linear(drhs) == want:
+                        gs = [negate_truth(c, t) for c, t, _ in g.guards_at(d.bid)]
+                        if any(t and is_e(strip(c), "bin") and strip(c)[1] == ">" and eq(strip(c)[2], v) and linear(strip(c)[3]) == want for c, t in gs):
+                            rem_ok = True
+        r2.inst(("len", el.n), {"site": el.where(), "store": show(el.e), "clamped_by_howmuch_under_exact": ok, "accumulator": acc,
+                                "clamped_to_howmuch_minus_total_so_far": rem_ok})
         if not ok:
             r2.bad("K8:evbuffer_read_setup_vecs_:iov_len-not-clamped", el.where(), g.name, "iov_len is not clamped to howmuch - so_far when exact is set")
+        elif not rem_ok:
+            r2.bad("K8:evbuffer_read_setup_vecs_:iov_len-clamp-not-remaining", el.where(), g.name,
+                   "iov_len is clamped, but not to (howmuch - total handed out so far): several vectors together can exceed howmuch")
     rules.append(r2)
 
     # ------------------------------------------------ write: amount
